@@ -25,7 +25,7 @@ CFG = {
         "CZone cases); Go's time.Date / time.Unix / Time.UnixMilli / fmt %0Nd / strconv.Atoi re-modelled (civil calendar, month "
         "normalisation, decimal digits, Atoi fast path with sign) and compared on every run, including malformed and out-of-range "
         "date strings. Outside the model: node widths other than 8/9/10 (not reachable through Setup), instants before 1991-09-16 "
-        "(variable zone offset), |epoch| >= 2^62 ms. No axioms, nothing PENDING. The held and par classes need no new model behaviour: the model is a function of (configuration, argument), so a kept result that later reads differently, or a result that depends on what other goroutines convert, fails case_accept and (inside the quantifier) case_holds of the existing CCn/CFields cases; detection of a data race is probabilistic, soundness is not (no verdict depends on the schedule on correct code)."),
+        "(variable zone offset), |epoch| >= 2^62 ms. No axioms, nothing PENDING. Setup is modelled as it is (C07_Model.setup_from): starts from the current globals, UseEpoch = floor of the instant to the ms, every UseNodeMode value other than 8/9 means 10, NodeAtLowest only switches on; theorems: the result is always one of the three layouts (c07_setup_layout), a configuration of the quantifier for epochs from 2000 on (c07_setup_from_valid), composition and stickiness. The held and par classes need no new model behaviour: the model is a function of (configuration, argument), so a kept result that later reads differently, or a result that depends on what other goroutines convert, fails case_accept and (inside the quantifier) case_holds of the existing CCn/CFields cases; detection of a data race is probabilistic, soundness is not (no verdict depends on the schedule on correct code)."),
     "rule": (
         "one case = one call (or one pair of calls) of the real functions under one layout: fields (IDFields+IDParse+IDParseEx of an id), "
         "order (IDFields of two ids), cn (CnStyle then FromChStyle), from (FromChStyle of a mutated / malformed date string), range / "
@@ -33,9 +33,9 @@ CFG = {
         "A case is non-trivial when it lies inside the property's quantifier, so that case_holds is not vacuous: node bits 8/9/10, "
         "epoch >= 2000-01-01 (+08), id >= 0; for cn additionally local year <= 9999; for range/between begin <= end and both second-truncated "
         "offsets from the epoch are values of the timestamp field (0 <= off < 2^(63-shift)); the monitor reads the range clause literally: "
-        "ids stamped bs..es inside, ids stamped before bs or from es+1000 on outside, ids stamped es+1..es+999 left open. distinct = distinct Coq terms. Two further classes treat the codec as the pure functions the property specifies (same case constructors, so the same accept/holds): held = a whole batch of ids is rendered with CnStyle first, the strings are kept, and only afterwards each kept string is read again (its bytes as they read AFTER the batch go into the case) and decoded with FromChStyle; par = 8 goroutines behind a spin barrier each convert their own ids (own seconds, runs of 1..8 ids per second, 150000 iterations each in the quick tier) through CnStyle/FromChStyle/IDFields/IDParse/IDParseEx; the first observation per id and every observation that differs from it are emitted (totals in harness_meta.parallel). A differing value is a violation under every schedule because the functions are specified as pure; nothing is inferred from timing."),
+        "ids stamped bs..es inside, ids stamped before bs or from es+1000 on outside, ids stamped es+1..es+999 left open. distinct = distinct Coq terms. Two further classes treat the codec as the pure functions the property specifies (same case constructors, so the same accept/holds): held = a whole batch of ids is rendered with CnStyle first, the strings are kept, and only afterwards each kept string is read again (its bytes as they read AFTER the batch go into the case) and decoded with FromChStyle; par = 8 goroutines behind a spin barrier each convert their own ids (own seconds, runs of 1..8 ids per second, 150000 iterations each in the quick tier) through CnStyle/FromChStyle/IDFields/IDParse/IDParseEx; the first observation per id and every observation that differs from it are emitted (totals in harness_meta.parallel). A differing value is a violation under every schedule because the functions are specified as pure; nothing is inferred from timing. Configurations: the default, year-2000 and special epochs always and the random ones half of the time (24 of 30 in the quick tier) are set through the PUBLIC API Setup(UseEpoch(t), UseNodeMode(m), NodeAtLowest()) - the hook only puts the three globals into a start state (package defaults, or an earlier configuration: Setup is cumulative); the case then carries (start, option list) and the configuration of EVERY class is the Coq term `setup_from start options`, so the behaviour Setup really produced is compared with the model of Setup (decoy options that a later one overrides, values that are no node mode, sub-millisecond epoch instants). setup = the configuration read back through behaviour (IDParse 0, IDFields -1, IDFields 1) incl. option values outside the quantifier (epoch 1970, before 1970, 1900; node modes 0..255)."),
     "trusted": [
-        "snowflake.VerifSetConfig hook (sets _epoch/_nodeBits/_nodeAtLowest; the three values Setup writes)",
+        "snowflake.VerifSetConfig hook (sets _epoch/_nodeBits/_nodeAtLowest: the whole configuration for the hook-configured cases, only the start state and the restore for the Setup-configured ones)",
         "zone data of Asia/Shanghai: constant offset +8 h after 1991-09-15 (assumption of the model, sampled on every run)",
         "Go time.Date / time.Unix / UnixMilli / fmt.Sprintf(%0Nd) / strconv.Atoi re-modelled in Gallina and compared on every run",
     ],
